@@ -37,7 +37,8 @@ LEVEL_TEXT = ("Exploration: thousands of (tree, spacing) cases over all shape cl
               " Trees derived by the library from used ones; BranchTree inputs; size sweep and one tree of 5*10^4 nodes."
               " One case per shard whose spacing needs more than 8191 steps on one branch."
               " One branch operator applied to a second branch while the first result is held."
-              " Metre-scale trees with purely relative tolerances; twins under custom column names and a get_ndata-overriding subclass.")
+              " Metre-scale trees with purely relative tolerances; twins under custom column names and a get_ndata-overriding subclass."
+              " Results overwritten in place, then the same operator on the same branch again.")
 LEVEL_NOTE = ("Critical nodes have pairwise distinct (position, radius) keys by construction. "
               "Nothing is demanded of smoothed interior positions (the statement does not fix the "
               "kernel); adjust_last_gap=False is outside the statement ('equal steps'). Tolerance "
